@@ -24,6 +24,9 @@ CONSTANTS
   Versions,            \* subset of {"1.0", "2.0"}
   ModeOf(_),           \* mode of the rule document with a given id (used when IdsIdentifyContent)
   IdsIdentifyContent,  \* TRUE: the host changes the id whenever the content (here: the mode) of a document changes
+  RulesKeyedOnIdOnly,  \* TRUE: the design before the repair -- an endpoint's rules are replaced only when the id changes;
+                       \* FALSE: also when the stored item differs from the one in the document (same id with another
+                       \* mode, an item with the empty id, an item with the empty id that was removed)
   InitScenarios,       \* subset of {"fresh", "haskey", "unreadable", "rotated"}
   InitDocs,            \* status documents the host may start with
   MaxReconf, MaxFaults, MaxCrash, MaxDamage, MaxNotify,
@@ -159,7 +162,7 @@ GetStatus(o) ==
 UpdRuleId(ep) ==
   /\ pc = RuleIdPc[ep]
   /\ LET id == Status.doc.rules[ep].id IN
-       IF mem.ruleId[ep] # id
+       IF mem.ruleId[ep] # id \/ (~RulesKeyedOnIdOnly /\ mem.rules[ep] # Status.doc.rules[ep])
        THEN mem' = [mem EXCEPT !.ruleId[ep] = id] /\ pc' = SetRulesPc[ep] /\ UNCHANGED loc
        ELSE pc' = AfterRules(ep, loc.rulesChanged) /\ UNCHANGED <<mem, loc>>
   /\ Did("UpdRuleId", ep, "none")
